@@ -148,26 +148,36 @@ Definition k_transpose (d : nat) (x : arr) : arr :=
       then Arr (aty x) sh' (adata x)
       else Arr (aty x) sh' (concat (map (trans_block n (prodn rest)) (blocks d x))) end end.
 
-(* first_depth / last_depth, monadic/mod.rs:1001-1142 (no fill value set) *)
-Definition k_first (d : nat) (x : arr) : res arr :=
+(* first_depth / last_depth, monadic/mod.rs:1017-1170 (no fill value set).  Since commit 09b3e8b
+   an empty axis ABOVE the depth means there is no row to take the first of: the axis is removed
+   and nothing fails.  [pre = true]: the code before it, which failed on empty rows regardless. *)
+Definition no_cells (pre : bool) (d : nat) (x : arr) : bool :=
+  negb pre && existsb (Nat.eqb 0) (firstn d (ash x)).
+Definition k_first (pre : bool) (d : nat) (x : arr) : res arr :=
   let d := dmin d x in
   match d with O => p_first None x | _ =>
   match skipn d (ash x) with
   | [] => Ok x
-  | O :: _ => Err
-  | 1%nat :: rest => Ok (Arr (aty x) (firstn d (ash x) ++ rest) (adata x))
-  | n :: rest => Ok (Arr (aty x) (firstn d (ash x) ++ rest) (concat (map (firstn (prodn rest)) (blocks d x))))
-  end end.
-Definition k_last (d : nat) (x : arr) : res arr :=
+  | n :: rest =>
+    if no_cells pre d x then Ok (Arr (aty x) (firstn d (ash x) ++ rest) (adata x)) else
+    match n with
+    | O => Err
+    | 1%nat => Ok (Arr (aty x) (firstn d (ash x) ++ rest) (adata x))
+    | _ => Ok (Arr (aty x) (firstn d (ash x) ++ rest) (concat (map (firstn (prodn rest)) (blocks d x))))
+    end end end.
+Definition k_last (pre : bool) (d : nat) (x : arr) : res arr :=
   let d := dmin d x in
   match d with O => p_last None x | _ =>
   match skipn d (ash x) with
   | [] => Ok x
-  | O :: _ => Err
-  | 1%nat :: rest => Ok (Arr (aty x) (firstn d (ash x) ++ rest) (adata x))
-  | n :: rest => Ok (Arr (aty x) (firstn d (ash x) ++ rest)
-                       (concat (map (skipn ((n - 1) * prodn rest)) (blocks d x))))
-  end end.
+  | n :: rest =>
+    if no_cells pre d x then Ok (Arr (aty x) (firstn d (ash x) ++ rest) (adata x)) else
+    match n with
+    | O => Err
+    | 1%nat => Ok (Arr (aty x) (firstn d (ash x) ++ rest) (adata x))
+    | _ => Ok (Arr (aty x) (firstn d (ash x) ++ rest)
+                 (concat (map (skipn ((n - 1) * prodn rest)) (blocks d x))))
+    end end end.
 
 (* sort_up_depth, monadic/sort.rs:244-288 (sortedness marks are not modelled: C06) *)
 Definition k_sort (d : nat) (x : arr) : res arr :=
@@ -247,17 +257,20 @@ Definition k_reduce_minmax (pre : bool) (sorted_up : bool) (o : pop2) (d : nat) 
   | PMin, true, e :: _ => Ok (Arr TNum [] [e])
   | _, _, _ => k_reduce_num o d x end.
 
-(** generic_reduce_inner for a dyadic function, reduce.rs:672-754: at depth > 0 the rows are
-    reduced one level down and re-assembled with rows_to_value - a scalar row included: its
-    single result is NOT unwrapped (contrast rows1's is_scalar / undo_fix) *)
-Fixpoint k_reduce_gen (F : arr -> arr -> res arr) (ident : option elem) (d : nat) (x : arr) : res arr :=
+(** generic_reduce_inner for a dyadic function, reduce.rs:672-760: at depth > 0 the rows are
+    reduced one level down and re-assembled with rows_to_value.  Since commit 68a793c the depth
+    is first limited to the rank ("rows of a scalar are the scalar itself").  [pre = true]: the
+    code before it, where a scalar row was treated as a one-row array and its single result NOT
+    unwrapped (contrast rows1's is_scalar / undo_fix) *)
+Fixpoint k_reduce_gen (pre : bool) (F : arr -> arr -> res arr) (ident : option elem) (d : nat) (x : arr) : res arr :=
   match d with
   | O => reduce_def F ident x
   | S d' =>
       match ash x with
       | O :: _ => Unspec                       (* empty: reduce_identity / best effort *)
-      | _ => rs <- mapM (k_reduce_gen F ident d') (match ash x with [] => [x] | _ => rows x end) ;;
-             assemble (aty x) rs end end.
+      | [] => if pre then rs <- mapM (k_reduce_gen pre F ident d') [x] ;; assemble (aty x) rs
+              else reduce_def F ident x
+      | _ => rs <- mapM (k_reduce_gen pre F ident d') (rows x) ;; assemble (aty x) rs end end.
 
 (* ================================================================== fast-path selection *)
 
@@ -269,8 +282,8 @@ Definition run_katom (a : katom) (d : nat) (x : arr) : res arr :=
   | KId => Ok x
   | KRev => Ok (k_reverse d x)
   | KTrans => Ok (k_transpose d x)
-  | KFirst => k_first d x
-  | KLast => k_last d x
+  | KFirst => k_first false d x
+  | KLast => k_last false d x
   | KSort => k_sort d x
   | KDeshape => Ok (k_deshape d x)
   | KFix => Ok (k_fix d x)
@@ -279,7 +292,7 @@ Definition run_katom (a : katom) (d : nat) (x : arr) : res arr :=
   | KReduce o =>
       match aty x with
       | TNum => k_reduce_num o d x                (* reduce_nums / fast_reduce *)
-      | _ => k_reduce_gen (red2 o) (red_ident o) d x end
+      | _ => k_reduce_gen false (red2 o) (red_ident o) d x end
   end.
 Fixpoint run_kernels (ks : list katom) (d : nat) (x : arr) : res arr :=
   match ks with [] => Ok x | k :: t => y <- run_katom k d x ;; run_kernels t d y end.
@@ -318,12 +331,13 @@ with fast_seg (f : mfn) : option (list katom * nat) :=
   | FSeq g h => merge (fast_seg g) (fast_seg h)
   | _ => option_map (fun k => ([k], 0%nat)) (atom_kernel true f) end.
 
-(** what the interpreter computes for an operand: rows1 (zip.rs:636-683) asks f_mon_fast_fn for
-    its operand and calls the kernel at depth d + 1, else loops over the rows *)
+(** what the interpreter computes for an operand: rows1 (zip.rs:649-700) asks f_mon_fast_fn for
+    its operand and calls the kernel at depth min (d + 1) (rank x) (the limit to the rank: commit
+    68a793c), else loops over the rows *)
 Fixpoint exec_mfn (f : mfn) (x : arr) : res arr :=
   match f with
   | FRows g => match fast_fn g with
-               | Some (ks, d) => run_kernels ks (S d) x
+               | Some (ks, d) => run_kernels ks (Nat.min (S d) (length (ash x))) x
                | None => rows_def (exec_mfn g) x end
   | FSeq g h => y <- exec_mfn g x ;; exec_mfn h y
   | FReduce o => run_katom (KReduce o) 0 x
